@@ -250,6 +250,10 @@ def check(prog, rep):
     # chain ends are found per chain identifier: the mmCIF reader must hand the identifier on whole (or refuse the row), never cut it
     from .c10 import rule_no_item_is_cut
     rep.guarded(rule_no_item_is_cut, prog, rep, "R10")
+    # the terminus flags are set once, by assign_termini, and read by set_state, update_bonds, the titration code and the movers
+    rep.guarded(shared.rule_who_may_write, prog, rep, "R11", "the terminus flags of a residue are written only by constructors and by assign_termini",
+                {"is_n_term", "is_c_term", "is5term", "is3term"},
+                {"biomolecule.py::Biomolecule.assign_termini": "decides the chain ends (C02.R2 evaluates it on every chain shape)"}, 4, "terminus flags")
     if not c07.ingestion_decided_on_models(prog, rep, "R8", only=("no chain identifiers",)):
         shared.rule_ter_chain_count(prog, rep, "R8")  # shape-based fallback
 
